@@ -110,7 +110,11 @@ func (pass *DisjunctionToType) processDisjunction(visitor *Visitor, schema *ast.
 			continue
 		}
 
-		processedBranch := branch
+		// branches can themselves contain disjunctions (in arrays, maps, ...)
+		processedBranch, err := visitor.VisitType(schema, branch)
+		if err != nil {
+			return ast.Type{}, err
+		}
 		processedBranch.Nullable = true
 
 		fields = append(fields, ast.NewStructField(ast.TypeName(processedBranch), processedBranch))
